@@ -79,4 +79,48 @@ Qed.
 Lemma seen_le s c : seen s c <= length (incoming s).
 Proof. unfold seen. lia. Qed.
 
+(* ---- remove_match once it has `subscriptions`: the three ways it can go ---- *)
+Inductive rm_spec (s : sys) (r : nat) : sys -> option nat -> Prop :=
+  | rm_absent : lookup (subs s) r = None -> rm_spec s r s None
+  | rm_dec e n : lookup (subs s) r = Some e -> e_ref e = S (S n) ->
+      rm_spec s r (with_subs s (put (subs s) r {| e_ref := S n; e_ch := e_ch e |})) None
+  | rm_last_open e : lookup (subs s) r = Some e -> e_ref e <= 1 -> rcv (chan_at s (e_ch e)) <> [] ->
+      rm_spec s r (with_subs s (del (subs s) r)) (Some (e_ch e))
+  | rm_last_close e : lookup (subs s) r = Some e -> e_ref e <= 1 -> rcv (chan_at s (e_ch e)) = [] ->
+      rm_spec s r (set_chan (with_subs s (del (subs s) r)) (e_ch e) (close (chan_at s (e_ch e)))) (Some (e_ch e)).
+
+Lemma rm_apply_spec s r s1 o : rm_apply s r = (s1, o) -> rm_spec s r s1 o.
+Proof.
+  unfold rm_apply. destruct (lookup (subs s) r) as [e|] eqn:El; [|intros H; inversion H; subst; now constructor].
+  destruct (e_ref e) as [|[|n]] eqn:Er.
+  - change (chan_at (with_subs s (del (subs s) r)) (e_ch e)) with (chan_at s (e_ch e)).
+    destruct (rcv (chan_at s (e_ch e))) eqn:Erc; intros H; inversion H; subst.
+    + eapply rm_last_close; eauto. lia.
+    + eapply rm_last_open; eauto; [lia | congruence].
+  - change (chan_at (with_subs s (del (subs s) r)) (e_ch e)) with (chan_at s (e_ch e)).
+    destruct (rcv (chan_at s (e_ch e))) eqn:Erc; intros H; inversion H; subst.
+    + eapply rm_last_close; eauto. lia.
+    + eapply rm_last_open; eauto; [lia | congruence].
+  - intros H; inversion H; subst. eapply rm_dec; eauto.
+Qed.
+
+(* ---- group 1: the tables ---- *)
+Record G1 (s : sys) : Prop := {
+  g_len : 2 <= length (chans s);
+  g_keys : NoDup (map fst (senders s));
+  g_shape : forall k c, In (k, c) (senders s) ->
+      c < length (chans s) /\ match k with KAll => c = 0 | KRet | KErr => c = 1 | KRule _ => 2 <= c end;
+  g_inj : forall r r' c, In (KRule r, c) (senders s) -> In (KRule r', c) (senders s) -> r = r';
+  g_reg : forall r c, In (KRule r, c) (senders s) -> (exists e, lookup (subs s) r = Some e /\ e_ch e = c) \/ r1 s r c;
+  g_entry : forall r e, lookup (subs s) r = Some e -> 2 <= e_ch e < length (chans s);
+  g_entry_inj : forall r r' e e', lookup (subs s) r = Some e -> lookup (subs s) r' = Some e' -> e_ch e = e_ch e' -> r = r';
+  g_excl : forall sid r c r' c', a2 s sid r c -> r1 s r' c' -> False;
+  g_a2_uniq : forall sid r c sid' r' c', a2 s sid r c -> a2 s sid' r' c' -> sid = sid';
+  g_drops : forall sid pc, lookup (drops s) sid = Some pc -> exists st r, lookup (streams s) sid = Some st /\ s_rule st = Some r;
+  g_ids : forall sid a, lookup (adds s) sid = Some a -> lookup (streams s) sid = None
+}.
+
+Lemma Inv_G1 s : Inv s -> G1 s.
+Proof. intros I. constructor; apply I. Qed.
+
 End Inv.
